@@ -6,17 +6,17 @@ V = os.path.dirname(os.path.dirname(os.path.abspath(__file__)))
 CLAIMED = {
  "C19": dict(
   technique="deterministic simulation: seeded reorder/duplicate delivery faults on the declaration stream, checked against a set-semantics reference model",
-  text="Seeded simulated runs: each run supplies one declaration stream to the real assembler undisturbed and under a generated sequence of delivery faults (shuffle, adjacent swap, block reversal, rotation, duplication); every output is compared with a reference model (group by ID, priority group first, increasing ID order, content once + newline). Sampling, not proof: a clean batch is evidence that no order or duplication dependence exists for streams up to length ~18.",
+  text="Seeded simulated runs: each run supplies one declaration stream to the real assembler undisturbed and under a generated sequence of delivery faults (shuffle, adjacent swap, block reversal, rotation, duplication); every output is compared with a reference model (group by ID, priority group first, increasing ID order, content once + newline), the same slice is assembled twice, and one run in 16 uses the declaration list a real generator emits for a corpus program. Sampling, not proof: a clean batch is evidence that no order or duplication dependence exists for streams up to length ~18.",
   note="Trusted: the 40-line reference model in c19/main.go; precondition 'equal IDs carry equal content' is guaranteed by the stream generator. An ID supplied with both priority values may land in either group (the property does not say) but must not depend on delivery order.",
   ref="3 (C19)"),
  "C20": dict(
   technique="deterministic simulation: cooperative seeded scheduler over AST-instrumented formatters.go/cmd (sync, go, os/exec behind seams) x simulated tool world with missing/failing tools; history oracle",
-  text="Seeded simulated runs: 1-8 concurrent callers on one fresh formatter cache (and the real saveOutputs on the package-level cache) are interleaved by a PRNG-driven cooperative scheduler that owns every lock, wait-group, spawn and external-command point; the external tools are a simulated world (each tool installed / missing / probe fails / run fails, `which` present or not; all 512 worlds visited). The recorded exec history is checked: probe at most once per tool and cache, exactly one formatter run per request when usable, no run + nil error when absent, error propagated when the run fails, every request completes, lock discipline. Sampling of interleavings, not exhaustive.",
+  text="Seeded simulated runs: 1-8 concurrent callers on one fresh formatter cache (and the real saveOutputs on the package-level cache) are interleaved by a PRNG-driven cooperative scheduler that owns every lock, wait-group, spawn, channel and external-command point; the external tools are a simulated world (each tool installed / missing / probe fails / run fails, `which` present or not; all 512 worlds visited). The recorded exec history is checked: probe at most once per tool and cache, exactly one formatter run per request when usable, no run + nil error when absent, error propagated when the run fails, every request completes, lock discipline. Failing runs fail as a genuine *exec.ExitError, as a signal death or as a start failure. Two uncontrolled tiers repeat the workload free-running under the race detector, with a stubbed exec and with real stand-in processes on the unmodified package. Sampling of interleavings, not exhaustive.",
   note="Trusted: the cooperative scheduler and sync/exec replacements in simrt/ (yield points only at synchronisation and exec operations, so data races on plain memory are visible only through their consequences - the race-detector tiers cover raw races); classification of a command as probe or run by whether it names a requested file.",
   ref="3 (C20)"),
  "C07": dict(
   technique="deterministic simulation: map iteration order (the code's only scheduler) behind an AST-inserted seam, seeded permutation schedules vs canonical-order run; plus fresh-process sampling",
-  text="Every range over a map in the non-test gomacro packages of a scratch copy is rewritten to iterate in an order the simulator chooses. Per program (repo fixtures, corpus, synthesised multi-package modules) the canonical-order outputs of all seven targets are compared byte for byte with the outputs under seeded schedules that reverse, rotate or shuffle a random subset of sites; failures are minimised to the culpable range statement and replay exactly. A second tier runs the pristine code in fresh processes at GOMAXPROCS 1/4/16 and the real CLI, comparing hashes (probabilistic cross-check of what the seam cannot own: real map seeds, loader goroutines). Sampling over programs and schedules, not proof.",
+  text="Every range over a map in the non-test gomacro packages of a scratch copy is rewritten to iterate in an order the simulator chooses. Per program (repo fixtures, corpus, synthesised multi-package modules) the canonical-order outputs of all seven targets are compared byte for byte with the outputs under seeded schedules that reverse, rotate or shuffle a random subset of sites; failures are minimised to the culpable range statement and replay exactly. A controlled command tier runs the real Config.run (load, analyse, every action, saveOutputs) of a copy instrumented with both seams under the cooperative scheduler, so that map orders and goroutine picks are seeded. Uncontrolled cross-checks run the pristine code in fresh processes at GOMAXPROCS 1/4/16, reload the same program 30-300 times in one process (go/packages' parser goroutines decide token.Pos order) and run the real CLI, comparing hashes: they sample what the seam cannot own. Sampling over programs and schedules, not proof.",
   note="Trusted: the instrumenter's rewrite (snapshot of the map, canonical sort by key rendering, then permutation) is a legal iteration order of the original loop as long as the loop body does not insert into or delete from the ranged map (sites that do are listed in the evidence). Pointer-value dependence is only visible through the fresh-process tier.",
   ref="3 (C07)"),
  "C17": dict(
